@@ -556,7 +556,7 @@ type job struct {
 
 func jobsFor(tier string) []job {
 	var js []job
-	all := append(scen.Pairs(), scen.Triples()...)
+	all := append(append(scen.Pairs(), scen.Triples()...), scen.QueryTriples()...)
 	for _, sc := range all {
 		if tier == "thorough" {
 			js = append(js, job{sc, 2, 0, 25 * time.Minute})
@@ -762,7 +762,7 @@ func parent(tier string) int {
 		s := all[len(all)/2]
 		r.Sample(map[string]any{"scenario": s.Scenario, "preemption_bound": s.Bound, "schedules": s.Executions, "max_points": s.MaxPoints, "distinct_outcomes": s.Outcomes})
 	}
-	r.Set("rule", "every schedule of every scenario up to the stated preemption bound (iterative context bounding; switches at a thread's end are free), plus for the scenarios with the shortest executions ALL schedules (no preemption bound) with state pruning on per-thread step counts while no context switch observes changed shared state, executed on the real code instrumented with a scheduling point before every statement of every library package; scenarios: every unordered pair of the operation catalogue (mc/internal/scen, 20 operations) incl. a||a, with a shared decoded receiver and with distinct receivers, plus 3-thread scenarios; oracle per execution: every operation's result equals the sequential result, shared objects' observables unchanged, the same operations repeated sequentially after the concurrent phase still give the sequential results, no panic, no deadlock; determinism obligations: the empty schedule twice gives identical traces, every replayed prefix offers the recorded choices")
+	r.Set("rule", "every schedule of every scenario up to the stated preemption bound (iterative context bounding; switches at a thread's end are free), plus for the scenarios with the shortest executions ALL schedules (no preemption bound) with state pruning on per-thread step counts while no context switch observes changed shared state, executed on the real code instrumented with a scheduling point before every statement of every library package; scenarios: every unordered pair of the operation catalogue (mc/internal/scen, 20 operations) incl. a||a, with a shared decoded receiver and with distinct receivers, plus 3-thread scenarios (six mixed ones and every multiset of three short queries on one shared object); oracle per execution: every operation's result equals the sequential result, shared objects' observables unchanged, the same operations repeated sequentially after the concurrent phase still give the sequential results, no panic, no deadlock; determinism obligations: the empty schedule twice gives identical traces, every replayed prefix offers the recorded choices")
 	r.Assume("statement-level atomicity and sequentially consistent memory; code outside the six library packages (fmt, text/template, x/text, errs) runs atomically between two scheduling points; data races inside one statement are left to the separate free-running -race pass")
 	r.Assume("every package-level variable of the six library packages is reset to its value at process start before each execution (so lazily built tables and caches are cold in every execution); state inside other packages is not reset")
 	r.Assume("at most 3 goroutines; goroutines started by the library itself would not be controlled (the library starts none)")
@@ -793,7 +793,7 @@ func replay(path string) int {
 	c := doc.Violation.Case
 	name, _ := c["scenario"].(string)
 	var sc *scen.Scenario
-	for _, s := range append(scen.Pairs(), scen.Triples()...) {
+	for _, s := range append(append(scen.Pairs(), scen.Triples()...), scen.QueryTriples()...) {
 		if s.Name == name {
 			s := s
 			sc = &s
